@@ -16,7 +16,8 @@ import numpy as np
 
 from . import vlib
 
-U = 2.0 ** -10            # one lattice unit; rhobeg = 1000 u
+U0 = 2.0 ** -10           # one lattice unit; rhobeg = 1000 u
+U = U0
 BIG = 100000000
 
 
@@ -47,17 +48,19 @@ def replay_init(args):
         box = st["box"]
         pts = st["points"]
         x0 = np.round(rng.normal(size=n) * 4.0) / 16.0      # dyadic
-        lo = np.array([x0[i] + box[i][0] * U if box[i][0] > -BIG else -np.inf for i in range(n)])
-        hi = np.array([x0[i] + box[i][1] * U if box[i][1] < BIG else np.inf for i in range(n)])
-        variants = [("feasible", x0.copy())]
+        variants = [("feasible", x0.copy(), U0)]
         onb = [i for i in range(n) if box[i][0] == 0 or box[i][1] == 0]
         if onb:
             xo = x0.copy()
             for i in onb:
                 xo[i] += -0.75 if box[i][0] == 0 else 0.75
-            variants.append(("infeasible", xo))
+            variants.append(("infeasible", xo, U0))
+        # the specification is in units of rhobeg: the same configuration at a larger unit (rhobeg = 7.8 > 1; every threshold of the code scales with it)
+        variants.append(("feasible_large_unit", x0.copy(), 8 * U0))
         A = rng.normal(size=(n + 1, n))
-        for vname, xstart in variants:
+        for vname, xstart, U in variants:
+            lo = np.array([x0[i] + box[i][0] * U if box[i][0] > -BIG else -np.inf for i in range(n)])
+            hi = np.array([x0[i] + box[i][1] * U if box[i][1] < BIG else np.inf for i in range(n)])
             calls = []
 
             def f(x):
